@@ -395,6 +395,9 @@ func vRunSched(w *VWorld, sc *SchedScenario, prefix []int, horizon int) *vsync.E
 	tokens := make([]uint64, len(sc.Threads))
 	received := make([][]string, len(sc.Threads))
 	tokDS := make([]string, len(sc.Threads))
+	// instants taken by reader threads (op "snap"): the as-of-t answers recorded when t was now
+	var snaps []*VInstant
+	snapChk := &VCheck{H: h, SkipKnownC03: true}
 	var bodies []func()
 	var names []string
 	for ti, th := range sc.Threads {
@@ -403,6 +406,15 @@ func vRunSched(w *VWorld, sc *SchedScenario, prefix []int, horizon int) *vsync.E
 		names = append(names, fmt.Sprintf("client%d", ti))
 		bodies = append(bodies, func() {
 			for oi, op := range th {
+				if op.K == "snap" {
+					// an instant t = now, and what the point-in-time APIs answer for it right away
+					results[ti][oi] = opResult{OK: true}
+					t := time.Now().UnixNano()
+					in := snapChk.snapshotAt(sc.IDs[:1], [][]string{nil}, t, false) // the first id, unscoped: few scheduling points
+					in.Label = fmt.Sprintf("snap-%d-%d", ti, oi)
+					snaps = append(snaps, in)
+					continue
+				}
 				if op.K == "tokread" {
 					results[ti][oi] = opResult{OK: true}
 					tokDS[ti] = op.DS
@@ -513,6 +525,21 @@ func vRunSched(w *VWorld, sc *SchedScenario, prefix []int, horizon int) *vsync.E
 	if !explain(nil, make([]int, len(sc.Threads))) {
 		rs, _ := json.Marshal(results)
 		x.Viol = append(x.Viol, fmt.Sprintf("no total order of the operations consistent with each client's order explains the results %s and the final state %s (%s)", rs, impl, why))
+	} else if sc.Oracle == "instants" {
+		// C06: an answer pinned to an instant does not change afterwards, whatever was in flight at that instant
+		for _, in := range snaps {
+			again := snapChk.snapshotAt(sc.IDs[:1], [][]string{nil}, in.T, false)
+			before := len(snapChk.Viol)
+			snapChk.CompareInstant(in, again)
+			for _, v := range snapChk.Viol[before:] {
+				clause := v.Key
+				if i := strings.Index(clause, "|"); i >= 0 {
+					clause = clause[:i]
+				}
+				clause = strings.Replace(clause, in.Label, "snap", 1)
+				x.Viol = append(x.Viol, clause+"::an instant taken while a writer was in flight: "+v.What)
+			}
+		}
 	} else if sc.Oracle == "tokens" {
 		// C02: a reader that follows its tokens, and finally reads to the end, has received the whole feed: nothing
 		// skipped, nothing twice, whatever the writers did in between
